@@ -113,6 +113,7 @@ class Extract:
         self.body_start = []
         self.body_end = []      # before the tail expression (or before the closing brace when the body ends with a statement)
         self.noname = False
+        self.expand_macros = []  # names of macro_rules! macros whose invocations inside the body are expanded textually (R24)
         self.derive = ('Clone', 'Copy', 'PartialEq', 'Eq')
         self.add_derive = ()    # Verus-only derives (e.g. Structural: makes the derived == structural equality)
 
@@ -196,6 +197,8 @@ def parse_vspec(path):
                 sink = ex.contract
             elif d == 'noname':
                 ex.noname = True
+            elif d.startswith('expand-macro '):
+                ex.expand_macros.append(d.split()[1])
             elif d.startswith('add-derive'):
                 ex.add_derive = tuple(d.split()[1:])
             elif d.startswith('derive'):
@@ -285,6 +288,49 @@ def expand_macro(rf, invocation):
     return RustFile(rf.path + '#' + invocation, text=body), rf.line_of(hits[0].start()) - 1, f"{name}!({', '.join(args)}) at line {rf.line_of(hits[0].start())}, definition at line {rf.line_of(d.start())}"
 
 
+def macro_arm(rf, name):
+    """(param names, expansion text) of the single arm of `macro_rules! name`"""
+    msk = rf.msk
+    d = re.search(r'\bmacro_rules!\s*' + re.escape(name) + r'\s*\{', msk)
+    if not d:
+        raise RustSrcError(f"{rf.path}: macro_rules! {name} not found")
+    dopen = d.end() - 1
+    dclose = match_brace(msk, dopen)
+    inner = msk[dopen + 1:dclose]
+    po = inner.find('(')
+    pc = match_brace(inner, po)
+    params = re.findall(r'\$([a-z_][A-Za-z0-9_]*)\s*:\s*ident', inner[po:pc + 1])
+    arrow = inner.find('=>', pc)
+    bo = inner.find('{', arrow)
+    bc = match_brace(inner, bo)
+    if inner[bc + 1:].strip().strip(';').strip():
+        raise RustSrcError(f"{rf.path}: macro {name} has more than one arm (unsupported)")
+    return params, rf.src[dopen + 1 + bo + 1:dopen + 1 + bc]
+
+
+def expand_macro_calls(rf, text, name):
+    params, arm = macro_arm(rf, name)
+    k = 0
+    while True:
+        msk = mask(text)
+        m = re.search(r'\b' + re.escape(name) + r'!\s*\(', msk)
+        if not m:
+            break
+        po = m.end() - 1
+        pc = match_brace(msk, po)
+        args = [a.strip() for a in text[po + 1:pc].split(',') if a.strip()]
+        if len(args) != len(params) or not all(re.fullmatch(r'[A-Za-z_][A-Za-z0-9_]*', a) for a in args):
+            raise RustSrcError(f"{rf.path}: invocation of {name}! with arguments {args} does not fit its {len(params)} identifier parameters")
+        exp = arm
+        for pname, a in zip(params, args):
+            exp = re.sub(r'\$' + pname + r'\b', a, exp)
+        if '$' in mask(exp):
+            raise RustSrcError(f"{rf.path}: macro {name}: unexpanded metavariable")
+        text = text[:m.start()] + exp.strip() + text[pc + 1:]
+        k += 1
+    return text, k
+
+
 def count_ok(want, got):
     if want == '*':
         return True
@@ -295,6 +341,7 @@ def count_ok(want, got):
 
 def render_extract(ex, report, vacuity=False):
     rf = rust_file(ex.relpath)
+    rf0 = rf
     line_base = 0
     macro_note = None
     try:
@@ -384,6 +431,16 @@ def render_extract(ex, report, vacuity=False):
     body = rf.src[it.body_open:it.end]          # includes braces
     body_first_line = rf.line_of(it.body_open)
 
+    # R24 (in-body form): invocations `name!(a, b, ..)` of a single-arm macro_rules! macro with identifier parameters are replaced by
+    # the arm's expansion, taken from the macro definition in the same file
+    for mname in ex.expand_macros:
+        try:
+            body, k = expand_macro_calls(rf0, body, mname)
+        except RustSrcError as e:
+            raise AnchorLost(str(e))
+        if k == 0:
+            raise AnchorLost(f"{fid}: no invocation of {mname}! in the body")
+        rep['rewrites'][f'R24 macro-expansion {mname}!'] = k
     # explicit rewrites on signature+body separately so that line bookkeeping survives
     for (label, n, pat, repl) in ex.rewrites:
         sig2, k1 = re.subn(pat, repl, sig, flags=re.S)
